@@ -161,7 +161,7 @@ def step (s : St) (line : String) : St × String :=
   | ["size"] => (s, toString s.tab.entries)
   | ["pdump"] => (s, dumpTable s.tab)
   | "dbl" :: _ =>   -- Double(new_base, clear_new): an optional word "noclear" (the harness pre-fills the new half)
-    match KV.Probing.double s.hash s.tab with
+    match (if s.p2 then KV.Probing.doubleP2 s.hash s.tab else KV.Probing.double s.hash s.tab) with
     | some t' => ({ s with tab := norm t' }, "ok")
     | none => (s, "diverge")
   | ["anew", init, _inv, hk, hp] =>
@@ -177,14 +177,14 @@ def step (s : St) (line : String) : St × String :=
   | ["ains", k, v] =>
     match k.toNat?, v.toNat? with
     | some k, some v =>
-      match s.auto.insert s.hash KV.Probing.thetaReal k v with
+      match s.auto.insertP2 s.hash KV.Probing.thetaReal k v with
       | some (q, a') => ({ s with auto := { a' with t := norm a'.t } }, s!"ok {q}")
       | none => (s, "diverge")
     | _, _ => (s, "bad-op")
   | ["afoi", k, v] =>
     match k.toNat?, v.toNat? with
     | some k, some v =>
-      match s.auto.findOrInsert s.hash KV.Probing.thetaReal k v with
+      match s.auto.findOrInsertP2 s.hash KV.Probing.thetaReal k v with
       | .ok (true, p, w, a') => ({ s with auto := { a' with t := norm a'.t } }, s!"found {p} {w}")
       | .ok (false, p, _, a') => ({ s with auto := { a' with t := norm a'.t } }, s!"new {p}")
       | .full t' => ({ s with auto := { s.auto with t := t' } }, "full")
@@ -192,7 +192,7 @@ def step (s : St) (line : String) : St × String :=
     | _, _ => (s, "bad-op")
   | ["afind", k] =>
     match k.toNat? with
-    | some k => (s, showProbe (KV.Probing.findPos s.hash s.auto.t k))
+    | some k => (s, showProbe (KV.Probing.findPosP2 s.hash s.auto.t k))
     | none => (s, "bad-op")
   | ["asize"] => (s, toString s.auto.t.entries)
   | ["adump"] => (s, dumpTable s.auto.t)
